@@ -357,7 +357,12 @@ macro_rules! common_methods {
         }
         fn bary(&self, x: u64, y: u64) -> String {
             let mut w = Vec::new();
-            self.t.barycentric().get_weights(p2::<S>(x, y), &mut w);
+            let bc = self.t.barycentric();
+            if self.t.num_vertices() > 0 {
+                let p0 = self.t.vertex(vh(0)).position();
+                bc.get_weights(p0, &mut w);
+            }
+            bc.get_weights(p2::<S>(x, y), &mut w);
             let mut s = String::from("w");
             for (v, c) in w {
                 let _ = write!(s, " {} {}", v.index(), tok(c));
@@ -462,8 +467,15 @@ where
         }
     }
     fn nnw(&self, x: u64, y: u64) -> String {
+        // the same NaturalNeighbor object and result vector are used for a warm-up query (on a
+        // vertex, so that it yields a weight) and then for the real one: stale state must not leak
         let mut w = Vec::new();
-        self.t.natural_neighbor().get_weights(p2::<S>(x, y), &mut w);
+        let nn = self.t.natural_neighbor();
+        if self.t.num_vertices() > 0 {
+            let p0 = self.t.vertex(vh(0)).position();
+            nn.get_weights(p0, &mut w);
+        }
+        nn.get_weights(p2::<S>(x, y), &mut w);
         let mut s = String::from("w");
         for (v, c) in w {
             let _ = write!(s, " {} {}", v.index(), tok(c));
